@@ -62,6 +62,7 @@ func (c *fixturesCfg) GetEnableWriteOperations() bool { return c.write }
 type request struct {
 	method, path, body, bodyKind string
 	verbatim                     bool
+	canon                        string // path without the query string (which operation is meant)
 }
 
 const goodID = "0x1111111111111111111111111111111111111111111111111111111111111111"
@@ -170,6 +171,20 @@ func genRequests(r *vlib.Rng) []request {
 		request{method: "POST", path: "/v1/shutdown", bodyKind: "none", verbatim: true},
 		request{method: "POST", path: "/v1/decryptionTrigger", body: bodies[1].body, bodyKind: "valid-trigger", verbatim: true},
 	)
+	// the same natural requests with a query string: the query is not part of the operation
+	nat := append([]request{}, out[len(out)-6:]...)
+	for _, q := range []string{"?x=1", "?", "?a=b&c=/v1/shutdown"} {
+		for _, n := range nat {
+			n.canon = n.path
+			n.path += q
+			out = append(out, n)
+		}
+	}
+	for i := range out {
+		if out[i].canon == "" {
+			out[i].canon = out[i].path
+		}
+	}
 	return out
 }
 
@@ -307,7 +322,7 @@ func runCase(env *vlib.Env, idx int, rep *vlib.Reporter) {
 		if q.verbatim && strings.HasPrefix(q.path, "/v1/") {
 			// natural requests: read-only operations must be reachable in both configurations
 			switch {
-			case q.method == "GET" && q.path == "/v1/ping":
+			case q.method == "GET" && q.canon == "/v1/ping":
 				if codes[0] != 200 || bodyOut != "pong" {
 					rep.Violationf("readonly-unreachable:ping", map[string]any{"request": desc, "status": codes[0]}, "GET /v1/ping is not reachable (status %d)", codes[0])
 					return
@@ -315,7 +330,7 @@ func runCase(env *vlib.Env, idx int, rep *vlib.Reporter) {
 				if !write {
 					rep.Obs("readonly_reached_while_disabled", 1)
 				}
-			case q.method == "GET" && q.path == "/v1/eons":
+			case q.method == "GET" && q.canon == "/v1/eons":
 				if codes[0] != 200 || !strings.Contains(bodyOut, "eon_key") {
 					rep.Violationf("readonly-unreachable:eons", map[string]any{"request": desc, "status": codes[0], "body": bodyOut}, "GET /v1/eons is not reachable (status %d)", codes[0])
 					return
@@ -323,7 +338,7 @@ func runCase(env *vlib.Env, idx int, rep *vlib.Reporter) {
 				if !write {
 					rep.Obs("readonly_reached_while_disabled", 1)
 				}
-			case q.method == "GET" && q.path == "/v1/decryptionKey/3/"+goodID:
+			case q.method == "GET" && q.canon == "/v1/decryptionKey/3/"+goodID:
 				if codes[0] != 200 {
 					rep.Violationf("readonly-unreachable:decryptionKey", map[string]any{"request": desc, "status": codes[0], "body": bodyOut}, "GET decryptionKey for a stored key is not reachable (status %d)", codes[0])
 					return
@@ -331,17 +346,17 @@ func runCase(env *vlib.Env, idx int, rep *vlib.Reporter) {
 				if !write {
 					rep.Obs("readonly_reached_while_disabled", 1)
 				}
-			case q.method == "GET" && strings.HasPrefix(q.path, "/v1/decryptionKey/3/0x2222"):
+			case q.method == "GET" && strings.HasPrefix(q.canon, "/v1/decryptionKey/3/0x2222"):
 				if codes[0] != 404 || !strings.Contains(bodyOut, "no decryption key found") {
 					rep.Violationf("readonly-unreachable:decryptionKey", map[string]any{"request": desc, "status": codes[0], "body": bodyOut}, "GET decryptionKey for an unknown key does not reach its handler (status %d)", codes[0])
 					return
 				}
-			case q.method == "POST" && q.path == "/v1/shutdown" && write:
+			case q.method == "POST" && q.canon == "/v1/shutdown" && write:
 				if ds != 3 {
 					rep.Violationf("write-unreachable:shutdown", map[string]any{"request": desc, "status": codes[0]}, "with write operations enabled POST /v1/shutdown did not reach the handler")
 					return
 				}
-			case q.method == "POST" && q.path == "/v1/decryptionTrigger" && write && q.bodyKind == "valid-trigger":
+			case q.method == "POST" && q.canon == "/v1/decryptionTrigger" && write && q.bodyKind == "valid-trigger":
 				if dt != 3 {
 					rep.Violationf("write-unreachable:trigger", map[string]any{"request": desc, "status": codes[0], "body": bodyOut}, "with write operations enabled POST /v1/decryptionTrigger did not reach the handler")
 					return
